@@ -52,8 +52,34 @@ _SEED = 0
 _TIER = "quick"
 
 
+_COV_NEW = []
+
+
+def _cov_start():
+    """VERIF_COVERAGE=1 (tools/coverage.py): record which lines of cola/ the exploration executes.  sys.monitoring LINE events are disabled per
+    location after the first hit, so the cost is one callback per line per worker."""
+    import cola
+    root = os.path.dirname(os.path.abspath(cola.__file__)) + os.sep
+    mon = sys.monitoring
+    tool = mon.COVERAGE_ID
+    try:
+        mon.use_tool_id(tool, "verif-cov")
+    except ValueError:
+        pass
+
+    def on_line(code, line):
+        if code.co_filename.startswith(root):
+            _COV_NEW.append((code.co_filename[len(root):], line))
+        return mon.DISABLE
+
+    mon.register_callback(tool, mon.events.LINE, on_line)
+    mon.set_events(tool, mon.events.LINE)
+
+
 def _worker_init():
     signal.signal(signal.SIGALRM, _alarm)
+    if os.environ.get("VERIF_COVERAGE") == "1":
+        _cov_start()
     if hasattr(_MOD, "setup_worker"):
         _MOD.setup_worker()
 
@@ -77,6 +103,9 @@ def _run_one(case):
         signal.setitimer(signal.ITIMER_REAL, 0)
     res["case"] = case if seed == _SEED else {"__seed_offset__": seed - _SEED, "case": case}
     res["wall"] = time.time() - t0
+    if _COV_NEW:
+        res["_cov"] = list(_COV_NEW)
+        _COV_NEW.clear()
     return res
 
 
@@ -133,7 +162,9 @@ def main(mod, argv=None):
     samples = []
     harness_errors = []
     slow = []
+    cov_lines = set()
     for res in explore(mod, cases, seed, args.tier, args.jobs):
+        cov_lines.update(map(tuple, res.pop("_cov", ())))
         n_states += int(res.get("states", 1))
         n_cases += 1
         n_trans += int(res.get("transitions", 0))
@@ -227,6 +258,10 @@ def main(mod, argv=None):
         "wall_s": round(wall, 2),
         "violations": len(new_keys),
     }
+    if os.environ.get("VERIF_COVERAGE") == "1":
+        cov_out = os.environ.get("VERIF_COVERAGE_OUT", os.path.join(ROOT, f".coverage_{prop}.json"))
+        with open(cov_out, "w") as f:
+            json.dump(sorted(cov_lines), f)
     if not args.no_evidence and not args.limit:
         os.makedirs(os.path.join(ROOT, "evidence"), exist_ok=True)
         with open(os.path.join(ROOT, "evidence", f"{prop}.json"), "w") as f:
